@@ -117,6 +117,17 @@ def install_events(it):
     order = event_order()
     ms = []
     def m(pat, fn): ms.append((re.compile(pat), fn, False))
+    # raw bytes written behind the XML writer's back (writer.get_mut().write(..)): they are text content as it stands
+    class RawSink:
+        def __init__(self, rec): self.rec = rec
+    m(r'quick_xml::Writer::<.*>::get_mut', lambda it_, w: Ref(Box_(RawSink(deref_all(w)))))
+    def raw_write(it_, sink, data):
+        d = deref_all(data); chars = getattr(d, 'chars', None)
+        if chars is None:
+            if all(isinstance(b, int) and b < 128 for b in d): chars = list(d)
+            else: raise Unsupported('raw bytes written to the XML stream that are not the bytes of a str')
+        deref_all(sink).rec.events.append(Adt('Text', [TextObj(chars)])); return OK(len(d))
+    m(r'<std::io::Cursor<std::vec::Vec<u8>> as std::io::Write>::(write|write_all)', raw_write)
     m(r"quick_xml::events::BytesText::<'_>::new", lambda it_, s: TextObj(escape(it_, deref_all(s).chars)))
     m(r"quick_xml::events::BytesEnd::<'_>::new::<.*>", lambda it_, name: EndObj(pstr(name.fields[0]) if isinstance(name, Adt) else pstr(name)))
     m(r'quick_xml::escape::partial_escape::<.*>', lambda it_, s: Adt(1, [SStr(_partial(it_, (deref_all(s.fields[0]) if isinstance(s, Adt) else deref_all(s)).chars))]))
